@@ -1260,6 +1260,8 @@ def c03_runs(tier, seed):
     runs += high_runs(tier, seed, scalars=("Q", "d", "ld"))
     # the same histories compiled with the other compiler (clang++ -O2)
     runs += [RunSpec("pool", "d", "clang", q(tier, 320, 20000))]
+    # results of calls that completed after injected scalar faults (drv_throw)
+    runs += [RunSpec("throw", None, "plain", q(tier, 44800, 2240000))]
     if tier == "thorough":
         runs += [RunSpec("pool", "Q", "clang", 8000),
                  RunSpec("arith", "d", "clang", 400000),
@@ -1283,7 +1285,7 @@ reg(Spec(
          "(equality for Q, C16 bound for floating types); the shadow of an "
          "in-place target is updated by the model so drift over a history is "
          "caught. " + POOL_NT,
-    required=["place:add:" + p for p in PLACEMENTS] +
+    required=["scalar-fault:completed", "place:add:" + p for p in PLACEMENTS] +
              ["place:mul:" + p for p in PLACEMENTS] +
              ["place:add-assign:" + p for p in PLACEMENTS] +
              ["c03:checked:" + k for k in (
